@@ -1,5 +1,7 @@
 mod quadlet;
 mod systemd_unit;
+#[cfg(quadlet_rs_verif)]
+mod verif_driver;
 
 use log::{debug, error, warn};
 
@@ -329,6 +331,11 @@ fn enable_service_file(output_path: &Path, service: &SystemdUnitFile) {
 }
 
 fn main() {
+    #[cfg(quadlet_rs_verif)]
+    if verif_driver::maybe_run() {
+        return;
+    }
+
     let kmsg_logger = KmsgLogger::new();
 
     let cfg = match validate_args(kmsg_logger) {
